@@ -38,9 +38,10 @@ def main():
     w("Repository: opentelemetry-cpp (OpenTelemetry C++ API and SDK), checked out in /repo. You must NOT edit /repo and must NOT "
       "read or touch anything under /verif. Create your own scratch worktree and work only there:")
     w("    git -C /repo worktree add --detach %s/wt HEAD" % base)
-    w("    cd %s/wt && cmake -G Ninja -S . -B _build >/dev/null && nice ninja -C _build      (several minutes; the machine "
-      "is shared, keep to `nice` and do not start more than one build at a time)" % base)
-    w("The sandbox has no network. The test suite is run with `ctest --test-dir _build -j8 --timeout 900` (the three "
+    w("    cd %s/wt && cmake -G Ninja -S . -B _build -DBUILD_W3CTRACECONTEXT_TEST=ON -DCMAKE_BUILD_TYPE=RelWithDebInfo "
+      "-DCMAKE_CXX_FLAGS=-Wno-error -DCMAKE_C_FLAGS=-Wno-error >/dev/null && ninja -C _build -j8      (several minutes; the "
+      "machine is shared: use -j8 and do not start more than one build at a time)" % base)
+    w("The sandbox has no network. The test suite is run with `ctest --test-dir _build -j8 --timeout 900` (510 tests; the three "
       "ext.http.curl.BasicCurlHttpTests that need a network fail on the unchanged tree too; ignore exactly those).")
     w("")
     w("Property %s - %s" % (pid, prop["title"]))
